@@ -417,12 +417,12 @@ def run_translation(case):
                         de = [e for e in delivered if isinstance(e, (wev.FileDeletedEvent, wev.DirDeletedEvent)) and e.src_path == sc.P(s)]
                         if not de:
                             raise Violation(f"{desc}: move out of the tree gave no deleted event for {s}; delivered {delivered}", "move-out-not-deleted")
-            if emitter == "fsevents" and not rec:
+            if not rec:
                 # an event is out of scope if none of its paths is the root or a direct child (a direct child moved to a
                 # deeper place is still an event about that child)
                 deep = [e for e in delivered if all((norm(p) or "").count("/") >= 1 for p in (e.src_path, e.dest_path) if p)]
                 if deep:
-                    raise Violation(f"{desc}: non-recursive FSEvents watch reported {deep[:3]} below the root's direct children", "nonrecursive-deep-event")
+                    raise Violation(f"{desc}: non-recursive {'FSEvents' if emitter == 'fsevents' else 'Windows'} watch reported {deep[:3]} below the root's direct children", "nonrecursive-deep-event")
         return nontrivial, sorted(info_cl) + [f"emitter:{emitter}", "recursive" if rec else "non-recursive"]
     finally:
         sc.close()
